@@ -632,7 +632,7 @@ def check_c12(tier, replay=None):
 
 def check_c13(tier, replay=None):
     m = mult(tier)
-    plan = [(G.adversarial, 25 * m, {}), (G.honest, 12 * m, {'gname': 'g12'}), (G.honest, 8 * m, {}), (G.reassign, 12 * m, {}), (G.endgame10, 12 * m, {}), (G.rarest, 20 * m, {}), ('model', 12 * m, {})]
+    plan = [(G.adversarial, 25 * m, {}), (G.honest, 12 * m, {'gname': 'g12'}), (G.honest, 8 * m, {}), (G.reassign, 12 * m, {}), (G.endgame10, 12 * m, {}), (G.rarest, 20 * m, {}), (G.nothing_to_assign, 8 * m, {}), (G.orphaned, 6 * m, {}), ('model', 12 * m, {})]
     return swarm_check('C13', tier, plan, need_actions=('MUnchoke', 'MBitfield', 'MHave'), kinds= ['Unchoke', 'Bitfield', 'Have'],
                        design_over=dict(Fuel=2, NPieces=3, NBlocks='N1x3', BFMenu='{{1, 2}, {3}}') if tier == 'quick' else dict(Fuel=3, NPieces=3, NBlocks='N1x3', BFMenu='{{1, 2}, {3}, {1, 2, 3}}'),
                        vacuity={'mgr_events': 500}, replay=replay,
